@@ -68,7 +68,9 @@ def find_element_that_meets_mh(stack, metahandler):
 
 
 def create_tree_using_stacks(g: Grammar, r: ListWrapper, failures_limit=100):
-    all_stack_types = g.get_all_mentioned_symbols()
+    # A set of classes iterates in an order that depends on their addresses, which differ from one
+    # process to the next; the genome indexes into this collection, so fix its order.
+    all_stack_types = sorted(g.get_all_mentioned_symbols(), key=str)
 
     stacks: dict[type, list[Any]] = {k: [] for k in all_stack_types}
 
